@@ -565,6 +565,12 @@ impl<E: Copy + Debug> Getter<State, E> for Terminal<'_, E> {
     fn get(&self) -> Output<State, E> {
         let mut addends: [core::mem::MaybeUninit<Datum<State>>; 2] =
             [core::mem::MaybeUninit::uninit(); 2];
+        //Verification hook: poison the scratch array so that a read of a slot that was never
+        //written shows up as a huge value and a far-future timestamp instead of plausible data.
+        #[cfg(rrtk_verif)]
+        unsafe {
+            core::ptr::write_bytes(addends.as_mut_ptr(), 0x7F, 2);
+        }
         let mut addend_count = 0usize;
         match self.get_last_request() {
             Some(state) => {
